@@ -21,7 +21,6 @@ PUB_IMPL = r"impl\s+ISocket\s+for\s+PubSocket\b"
 
 GLUE = """
 pub struct Elapsed { pub x: u8 }
-impl Duration { #[verifier::external_body] pub fn is_zero(&self) -> (r: bool) ensures r == (self.ns() == 0) { unimplemented!() } }
 // what "normalised" means, from the property text: same frames in the same order, payload and COMMAND bit untouched,
 // MORE on all but the last
 pub open spec fn normalised(out: Seq<Msg>, inp: Seq<Msg>) -> bool {
